@@ -488,6 +488,22 @@ func init() {
 						}
 					}
 				}})
+			// counts whose product with the byte length of the receiver (or separator) wraps around 2^64 to a small number
+			secs = append(secs, core.Section{Name: "wrapping-products", Exhaustive: true, N: len(stringsOfByteLength),
+				Run: func(c *core.Ctx, i int) {
+					recv := stringsOfByteLength[i]
+					for _, n := range wrappingCounts(len(recv)) {
+						for _, src := range []string{
+							fmt.Sprintf("{{ %q.repeat(%d) }}", recv, n), fmt.Sprintf("{{ r.repeat(n) }}"), fmt.Sprintf("{{ 5.decimal(%q, %d) }}", recv, n), fmt.Sprintf("{{ \"7\".decimal(r, n) }}"),
+							fmt.Sprintf("{{ %q.repeat(%d / 1).len() }}", recv, n), fmt.Sprintf("{{ r.truncate(n, r) }}|{{ r.at(n) }}|{{ [r, r].slice(n) }}|{{ [r].slice(0, n) }}"),
+						} {
+							c.Input(map[string]any{"source": src, "r": recv, "n": n})
+							got := evalString(c, src, map[string]any{"r": recv, "n": n})
+							c.Nontrivial(fmt.Sprint(src, recv, n))
+							checkOutcome(c, got, src, true)
+						}
+					}
+				}})
 			// several goroutines evaluate at once, with property names, struct types and function names never seen before
 			secs = append(secs, core.Section{Name: "concurrent-evaluation", N: 16,
 				Run: func(c *core.Ctx, i int) {
